@@ -34,7 +34,9 @@ META = {
             "decoder/encoder, Python generators. Oracles (section variables, not verified): SHA-256, secp256k1 verify, address derivation, "
             "BTC/VBK proof-of-work predicates, VBK plausibility, context-info root, altchain header callback. Honest completeness of whole "
             "payloads is proved for contiguous embeddings and tested (not proved) for MockMiner split layouts; PopData estimateSize is an "
-            "abstract number (C11 owns its exactness). The ASan stage runs in quick only when the ASan library variant is prebuilt.",
+            "abstract number (C11 owns its exactness). The model treats every hash as a function of the bytes; that VbkBlock's memoised hash equals "
+            "the hash of its bytes (also after deserialization into an existing object) is proved in C17 (C17_memo_transparent) and tested here "
+            "by the reused-object mode (real mainnet header under mainnet parameters; payloads read into validated objects). The ASan stage runs in quick only when the ASan library variant is prebuilt.",
     "technique": "Coq proof (induction over byte lists / path layers / call sequences) + extraction-based "
                  "differential correspondence + independent C++ embedding oracle + field-mutation oracle",
 }
@@ -223,7 +225,7 @@ def run_embed(ctx, model, harness, harness_asan):
     ctx.cov["disagreements_checked"] += len(cases)
     ctx.cov["traces_validated_against_impl"] += len(cases) - len(bad)
     # direct oracle on the implementation
-    for i, text in orc[:5]:
+    for i, text in orc:
         c = byid.get(i)
         ctx.violation({"kind": "input", "cases": [list(c)] if c else [], "oracle": text,
                        "model": mres.get(i), "impl": ires.get(i)})
@@ -315,6 +317,25 @@ def index_bit_matters(nleaves, leaf, k, levels):
 #    block (nothing links to it statelessly)
 #  * signature bytes: accepted iff secp256k1 verify still accepts (decided by the model from the measured `ver` leaf)
 #  * stand-alone VBK header fields other than height/difficulty under regtest (PoW limit is trivial)
+
+
+MAINNET_HEADER_FALLBACK = ("00277B9100025FD49543BA74A429AC48A3F2297D2CC1E0244EC22EDE46D061CEFED1E35C"
+                           "0AA208EC867AD999CA78861706B6FE606163022A0528F21755576DF2F3")
+
+
+def mainnet_header():
+    """the real mainnet VBK header of the repo's VbkBlockPOW.ValidMainNet test, read from the repo under test"""
+    try:
+        src = open(os.path.join(vlib.REPO, "test", "pop", "stateless_validation_test.cpp")).read()
+        i = src.index("ValidMainNet")
+        import re
+        m = re.search(r'RawHex<VbkBlock>\(\s*((?:"[0-9A-Fa-f]+"\s*)+)\)', src[i:i + 600])
+        hx_ = "".join(re.findall(r'"([0-9A-Fa-f]+)"', m.group(1)))
+        if len(hx_) == 130:
+            return hx_.lower(), "test/pop/stateless_validation_test.cpp (VbkBlockPOW.ValidMainNet)"
+    except Exception:
+        pass
+    return MAINNET_HEADER_FALLBACK.lower(), "built-in copy of VbkBlockPOW.ValidMainNet"
 
 
 def gen_payload_cases(ctx):
@@ -467,6 +488,40 @@ def gen_payload_cases(ctx):
             C.add("vbkblock/time", "vbkblock", str(i), "tsrel", str(k), claim, "time")
         C.add("vbkblock/height", "vbkblock", str(i), "height", str(-(h + 1)), "R")
         C.add("vbkblock/height", "vbkblock", str(i), "height", str(4097 * 8000 - h), "R")
+    # a REAL mainnet header under mainnet parameters: the PoW verdict depends on the hash (1 in 1.7e11 headers passes), the
+    # time rule and the minimum difficulty are live; fresh objects and objects that already hold another header + its hash
+    H, src = mainnet_header()
+    ctx.cov.setdefault("payload_sources", {})["mainnet_header"] = src
+    muts = [("nonce", 1), ("nonce", 77), ("mroot", r.below(128)), ("time", 1), ("prev", r.below(96)), ("ks1", r.below(72)), ("ks2", r.below(72)),
+            ("version", 1), ("diff", 0x01010000), ("diff", 0x0528f216), ("time", 100000000), ("time", -100000000)]
+    C.add("vbkmain/honest", "vbkmain", H, "fresh", "none", "0", "A")
+    for mode in ("reuse-raw", "reuse-vbk"):
+        C.add("vbkmain/honest", "vbkmain", H, mode, "none", "0", "A")
+    for f, k in muts:
+        for mode in ("fresh", "reuse-raw", "reuse-vbk"):
+            C.add("vbkmain/" + mode, "vbkmain", H, mode, f, str(k), "R")
+    for f, k in muts[:4]:
+        for mode in ("reuse-raw-rev", "reuse-vbk-rev"):
+            C.add("vbkmain/" + mode, "vbkmain", H, mode, f, str(k), "A")
+    # payloads read into an object that holds the honest payload, already validated (checked flags, hash memos filled)
+    for mode in ("reuse", "reuse-nc"):
+        for v in (0, 3):
+            V = str(v)
+            C.add("reuse/vtb", "vtb", V, "none", "0", "0", "A", mode)
+            for m, k, rs in (("v.mp.subject", r.below(256), "0"), ("v.mp.layer", r.below(1024), "0"), ("v.cb.mroot", r.below(128), "0"),
+                             ("v.mp.index", 0, "0"), ("t.sig", r.below(500), "0"), ("t.ctx.hard", 2, "1"), ("t.ctx.swap", 0, "1"), ("t.net", 0xaa, "1"),
+                             ("t.pubkey", 0, "1"), ("t.btctx.ins", 40, "1"), ("t.mp.subject", r.below(256), "1"), ("t.bop.mroot", r.below(256), "1")):
+                claim = "N" if m == "t.sig" else "R"
+                C.add("reuse/vtb", "vtb", V, m, str(k), rs, claim, mode)
+        for v in (0, 1):
+            V = str(v)
+            C.add("reuse/atv", "atv", V, "none", "0", "0", "A", mode)
+            for m, k, rs in (("v.mp.subject", r.below(256), "0"), ("v.mp.layer", r.below(512), "0"), ("v.cb.mroot", r.below(128), "0"),
+                             ("t.pd.id", 1, "1"), ("t.pd.header", r.below(300), "1"), ("t.net", 0xaa, "1"), ("t.addr", 0, "1"), ("t.overspend", 1, "1")):
+                C.add("reuse/atv", "atv", V, m, str(k), rs, "R", mode)
+        for sc, k, claim in (("honest", 0, "A"), ("badvtb", 0, "R"), ("badvtb", 2, "R"), ("badatv", 1, "R"), ("badvbk", 1, "R"), ("dupvtb", 0, "R"),
+                             ("dupvbk", 1, "R"), ("manyatv", 0, "R")):
+            C.add("reuse/popdata", "popdata", sc, str(k), claim, mode)
     # stand-alone VBK headers and header chains
     for i in range(5):
         C.add("vbkblock/honest", "vbkblock", str(i), "none", "0", "A")
@@ -538,7 +593,11 @@ def expected_path(op, c, s):
     return "?"
 
 
+MODEL_OP = {"vbkmain": "vbkblock"}
+
+
 def agree(op, mline, iline):
+    op = MODEL_OP.get(op, op)
     """model line `1` / `0 code sub` [| flags]; impl line `<0|1> <path> <changed> [flags]`. Returns None or a reason."""
     mres, _, mflags = mline.partition(" | ")
     it = iline.split()
@@ -584,7 +643,7 @@ def run_payload(ctx, model, harness):
             line = ires.get(cid)
             if line is None or line == "SKIP" or " |" not in line:
                 continue
-            f.write("%s %s %s\n" % (cid, op, line.split(" |", 1)[1].strip()))
+            f.write("%s %s %s\n" % (cid, MODEL_OP.get(op, op), line.split(" |", 1)[1].strip()))
             n += 1
     rc1, mres, _, merr = vlib.run_lines([model], minp, timeout=1500)
     bad = []
@@ -610,7 +669,7 @@ def run_payload(ctx, model, harness):
     for c in cases[1:3]:
         ctx.sample({"case": list(c), "impl": ires.get(c[0], "")[:160], "model": mres.get(c[0])})
     # direct oracle: honest accepted, non-neutral mutation rejected, memo flag == verdict
-    for i, text in orc[:5]:
+    for i, text in orc:
         c = byid.get(i)
         ctx.violation({"kind": "input", "pcases": [list(c)] if c else [], "oracle": text,
                        "impl": ires.get(i, "")[:300], "model": mres.get(i)})
